@@ -1431,6 +1431,13 @@ impl<'ast, 'res> Resolver<'ast, 'res> {
                 if self.signature_shadow.contains(v) {
                     return Some(ValueType::Dynamic);
                 }
+                // A function can run at any time after its definition: the type a variable
+                // of an enclosing function has where the definition stands (it may be
+                // re-declared or assigned a value of another type later) says nothing
+                // about the value the body will see.
+                if self.is_captured(v) {
+                    return Some(ValueType::Dynamic);
+                }
                 self.lookup_var_info(v).map(|(t, _)| t)
             }
             Expr::Binary { op, lhs, rhs, .. } => {
